@@ -225,14 +225,14 @@ def run(chk, tier, seed):
     chosen = []
     for k in sorted(groups, key=str):
         g = groups[k]; rng.shuffle(g); chosen += g[:per]
-    if tier == "quick":                 # one case of every coarse class (policy x verdict x code x signature shape x extender x certificate), then a random fill
+    if tier == "quick":                 # one case of every coarse class (policy x verdict x code x signature shape and calendar algorithm x extender x certificate), then a random fill
         rng.shuffle(chosen)
         first = []; rest = []
         for c in chosen:
-            k = key_of(c)[:8]
+            k = key_of(c)[:7]
             if k in coarse: rest.append(c)
             else: coarse[k] = 1; first.append(c)
-        chosen = first + rest[:max(0, 4000 - len(first))]
+        chosen = first + rest[:max(0, 4500 - len(first))]
     W = World(vlib.scratch("c04_pki"))
     s = netsim.Session(exe)
     n = 0; skipped = 0; byres = {}
